@@ -24,6 +24,7 @@ from .rustlex import scan, lex
 
 VERIF = os.path.dirname(os.path.dirname(os.path.abspath(__file__)))
 BASELINE = os.path.join(VERIF, 'spec', 'baseline_src')
+GHOST_VIEW_TYPES = ('Ps2Decoder', 'ScancodeSet1', 'ScancodeSet2', 'EventDecoder', 'Keyboard')
 
 
 class TreeScan:
@@ -235,6 +236,8 @@ def compute(repo, contract_keys=()):
         if c is None:
             continue
         fo.generics[st] = b['generics']
+        if st not in GHOST_VIEW_TYPES:
+            continue   # only the structs whose private fields the ghost accessors read (the substitution is `self.<field>`)
         for fname, ftype in b['fields'].items():
             if fname in c['fields']:
                 votes.setdefault(fname, set()).add(fname)
